@@ -264,71 +264,40 @@ func VfC03_RouteDuringRefresh() {
 	}
 }
 
-// VfC03_WireIdentity: what a client sends is what the owning node receives, and what the node
-// answers is what the client receives, byte for byte, through the real decoder -> handler ->
-// encoder on both sides: a SET whose key and value are arbitrary bytes of length 0..2 (the empty
-// string is a value, not "no value"), and a reply of each kind (bulk incl. empty and null, integer,
-// status, array holding an empty and a null bulk string).
-func VfC03_WireIdentity() {
-	a := "10.0.0.1:7000"
-	p, clients := vfNewProc(nil, a)
-	for i := range p.u.slots {
-		p.u.slots[i] = nil
-	}
-	key := nd.Bytes("k", nd.Concrete(nd.IntRange("klen", 1, 2)))
-	val := nd.Bytes("v", nd.Concrete(nd.IntRange("vlen", 0, 2)))
-	wire := []byte("*3\r\n$3\r\nset\r\n$")
-	wire = append(wire, byte('0'+len(key)), '\r', '\n')
-	wire = append(wire, key...)
-	wire = append(wire, '\r', '\n', '$', byte('0'+len(val)), '\r', '\n')
-	wire = append(wire, val...)
-	wire = append(wire, '\r', '\n')
-	nd.PanicLabel("wire-identity")
-	dec := newDecoder(&vfChunkReader{data: wire}, 4096)
-	v, err := dec.Decode()
-	nd.Assert(err == nil && v != nil, "the request decodes")
-	if err != nil || v == nil {
+// VfC04_TrafficDuringSilentRefresh: the node asked for CLUSTER NODES does not answer (it hangs with
+// its connection up - e.g. the master that is about to be failed over). The refresh round (the
+// function the refresh loop calls) waits; meanwhile commands for keys of reachable nodes are still
+// routed and forwarded, and redirections are still followed: nobody waits for the refresh.
+func VfC04_TrafficDuringSilentRefresh() {
+	seed, owner, other := "10.0.0.1:7000", "10.0.1.1:7000", "10.0.1.2:7000"
+	u, clients := vfNewUpstream(nil, seed)
+	clients[owner], clients[other] = vfFakeClient(), vfFakeClient()
+	u.clients.Store(clients)
+	key := "k1"
+	u.slots[vfSlotOf(key)] = &instance{Addr: owner}
+	nd.PanicLabel("traffic-during-refresh")
+	refreshed := false
+	go func() { u.refreshSlots(); refreshed = true }()
+	nd.Quiesce()
+	rq := vfTake(clients[seed])
+	nd.Assert(rq != nil && !refreshed, "the refresh asked the seed host and waits for its answer")
+	if rq == nil {
 		return
 	}
-	raw := newRawRequest(v)
-	p.handleRequest(raw) // no slot is loaded: the command goes to the only seed host
-	sreq := vfTake(clients[a])
-	nd.Assert(sreq != nil, "the command is forwarded")
-	if sreq == nil {
-		return
-	}
-	sink := &vfSink{}
-	enc := newEncoder(sink, 8192)
-	nd.Assert(enc.Encode(sreq.Body()) == nil && enc.Flush() == nil, "the request is encoded for the node")
-	nd.Assert(vfBytesEq(sink.b, wire), "the node receives exactly the bytes the client sent (empty values stay empty, not null)")
-	// the node's answer
-	var rwire []byte
-	switch nd.Concrete(nd.Choice("reply", 6)) {
-	case 0:
-		rwire = append([]byte("$"), byte('0'+len(val)), '\r', '\n')
-		rwire = append(append(rwire, val...), '\r', '\n')
-	case 1:
-		rwire = []byte("$-1\r\n")
-	case 2:
-		rwire = []byte(":-7\r\n")
-	case 3:
-		rwire = []byte("+OK\r\n")
-	case 4:
-		rwire = []byte("*3\r\n$0\r\n\r\n$-1\r\n*-1\r\n")
-	case 5:
-		rwire = []byte("*0\r\n")
-	}
-	rdec := newDecoder(&vfChunkReader{data: rwire}, 8192)
-	rv, rerr := rdec.Decode()
-	nd.Assert(rerr == nil && rv != nil, "the node's reply decodes")
-	if rerr != nil || rv == nil {
-		return
-	}
-	sreq.SetResponse(rv)
-	nd.Assert(vfDone(raw.done), "the client's request is answered")
-	out := &vfSink{}
-	oenc := newEncoder(out, 8192)
-	nd.Assert(oenc.Encode(raw.Response()) == nil && oenc.Flush() == nil, "the reply is encoded for the client")
-	nd.Assert(vfBytesEq(out.b, rwire), "the client receives exactly the bytes the node answered (null, empty and nested values kept apart)")
-	nd.Cover("both-ways")
+	// a command arrives while the refresh is waiting
+	req := newSimpleRequest(newStringArray("set", key, "v"))
+	sent := false
+	go func() { u.MakeRequest([]byte(key), req); sent = true }()
+	nd.Quiesce()
+	nd.Assert(sent && vfTake(clients[owner]) == req, "a command for a key of a reachable node is forwarded while a refresh waits for a silent node")
+	// ... and so is a redirection
+	red := newSimpleRequest(newStringArray("get", key))
+	followed := false
+	go func() { u.handleRedirection(red, newError("MOVED 1 "+other)); followed = true }()
+	nd.Quiesce()
+	nd.Assert(followed && vfTake(clients[other]) == red, "a redirection is followed while a refresh waits for a silent node")
+	nd.Cover("refresh-pending")
+	close(u.quit) // the upstream stops: the waiting refresh gives up
+	nd.Quiesce()
+	nd.Assert(refreshed, "the waiting refresh ends when the upstream stops")
 }
